@@ -165,6 +165,8 @@ class CSA:
                 raise Undecided('CSA: Scope pattern against %s' % (val,))
             if enum == 'OpCode' and val[0] == 'opcode':
                 return [('yes', st, env)] if val[1] == name else []
+            if enum == 'Operator' and val[0] == 'operator':
+                return [('yes', st, env)] if val[1] == name else []
             # AST constructors (Expr::X, Stmt::X, Operator::X)
             if val[0] == 'ast':
                 for suffix, dom in self.ast_domains.items():
@@ -301,6 +303,12 @@ class CSA:
 
         def cont(s, en, vals):
             l, r = vals
+            if l[0] == 'pos' and r[0] == 'pos' and op in ('==', '!=', '>', '>=', '<', '<='):
+                # code positions only grow between two captures (remove_last_instruction cannot go below the earlier one,
+                # O4 forbids removing across a captured label): a later capture with another id is a later position
+                same_ = l[1] == r[1]
+                val = {'==': same_, '!=': not same_, '>': not same_, '>=': True, '<': False, '<=': same_}[op]
+                return [(s, en, 'v', ('bool', val))]
             if op in ('==', '!='):
                 res = self.eq(l, r, s)
                 out = []
@@ -597,6 +605,10 @@ class CSA:
             if q == 'Object':
                 if name == 'function':
                     self.check_function_obj(s, vals)
+                if name.startswith('try_'):
+                    s2 = s.clone()
+                    s2.trace.append('%s fails' % name)
+                    return [(s, en, 'v', ('res', 'ok', ('obj', name[4:], tuple(vals)))), (s2, en, 'v', ('res', 'err', ('error', 'range')))]
                 return [(s, en, 'v', ('obj', name, tuple(vals)))]
             if q == 'builtins' and name == 'resolve':
                 s2 = s.clone()
@@ -633,6 +645,9 @@ class CSA:
             st.viol('R02.6', 'Object::function local count is %s, not the value returned by leave_context()' % show_av(nl))
             return
         fr = nl[1]
+        lab = st.labels.get(ip[1])
+        if lab is not None and lab.stale:
+            st.viol('O4', 'function entry position captured before remove_last_instruction() shortened the code')
         if st.fn_entries.get(fr) != ip[1]:
             st.viol('R12.1', 'Object::function entry position is not the first instruction of the body compiled in the context whose size it carries')
 
@@ -687,6 +702,8 @@ class CSA:
                     if v[0] != 'newloop' or v[1][0] != 'pos':
                         raise Undecided('CSA: loop_contexts.push(%s)' % (v,))
                     lab = s.labels[v[1][1]]
+                    if lab.stale:
+                        s.viol('O4', 'loop start position captured before remove_last_instruction() shortened the code')
                     s.loops.append(LoopCtx(lab, s.frame))
                     return V(('unit',))
                 if meth in ('last_mut', 'last'):
@@ -958,21 +975,32 @@ class CSA:
                 # break / continue bind to the innermost loop context of the caller
                 if s1.loops:
                     ctx = s1.loops[-1]
+                    word = 'stop' if kind == 'break' else 'volgende'
                     if ctx.frame != s1.frame:
-                        s1.viol('O6', '`%s` in a nested construct binds to a loop of another function frame' % ('stop' if kind == 'break' else 'volgende'))
-                    if kind == 'break':
+                        s1.viol('O6', '`%s` in a nested construct binds to a loop of another function frame' % word)
+                    pending_ops = None
+                    if live and h_abs is not None and ctx.start.h is not None:
+                        d_ = h_abs.sub(ctx.start.h)
+                        if d_.is_const() and d_.c > 0:
+                            pending_ops = d_.c
+                        elif not d_.is_const():
+                            pending_ops = 'some'
+                    if pending_ops:
+                        # an early exit taken while values of enclosing expressions are still on the stack: they are
+                        # abandoned (one slot leaks per iteration).  Reported here; the edge is not propagated further.
+                        s1.viol('O6-operands', '`%s` reachable in operand position: values of enclosing expressions (or the loop\'s own seed, inside the '
+                                'loop condition) are still on the stack at the jump and are never popped' % word)
+                    elif kind == 'break':
                         pid = -s1.next_pos
                         s1.next_pos += 1
-                        s1.pending[pid] = {'h': h_abs, 'frame': s1.frame, 'reach': live, 'op': 'Jump',
-                                           'what': '`stop` in %s' % ('statement position' if dh is not None and dh.c <= 1 and not dh.terms else 'operand position (values of enclosing expressions still on the stack)')}
+                        s1.pending[pid] = {'h': h_abs, 'frame': s1.frame, 'reach': live, 'op': 'Jump', 'what': '`stop` edge'}
                         s1.instr_at[pid] = 'Jump'
                         ctx.breaks.append(('pos', pid))
                         blob['breaks'].append(pid)
                     else:
                         blob['continues'].append(('pos', ctx.start.pos))
                         if live:
-                            m.check_edge_label(s1, {'h': h_abs, 'frame': s1.frame, 'reach': True}, ctx.start,
-                                               '`volgende` in %s' % ('statement position' if dh is not None and dh.c <= 1 and not dh.terms else 'operand position (values of enclosing expressions still on the stack)'))
+                            m.check_edge_label(s1, {'h': h_abs, 'frame': s1.frame, 'reach': True}, ctx.start, '`volgende` edge')
                 elif s1.outer_loops == 'empty':
                     ok = False
                 else:
